@@ -49,6 +49,17 @@ pub enum Sel {
     /// struct of which only the listed (translatable) fields are modelled; a function that touches
     /// any other field does not translate
     StructPartial(&'static str, &'static [&'static str]),
+    /// builder L: enum whose variants may carry (translatable) tuple payloads; variants of cargo
+    /// features the harness does not enable are left out
+    EnumData(&'static str),
+    /// builder L: a function the unit does not translate but declares (Lean text given by a `Raw`
+    /// item): (rust key, lean name, [(param, rust type)], rust return type)
+    ExternFn(&'static str, &'static str, &'static [(&'static str, &'static str)], &'static str),
+    /// builder L: register a struct whose Lean text a `Raw` item gives: (name, [(field, rust type)])
+    ExternStructRaw(&'static str, &'static [(&'static str, &'static str)]),
+    /// builder L: a statement kept abstract in the following functions: (needle in its source text,
+    /// Lean function declared by a `Raw` item, expressions it reads, variables it writes)
+    AbstractStmt(&'static str, &'static str, &'static [&'static str], &'static [&'static str]),
 }
 
 pub struct Unit {
@@ -176,7 +187,7 @@ fn translate_free_helpers(files: &[File], reg: &mut Registry, out: &mut String, 
         let found = files.iter().find_map(|f| f.items.iter().find_map(|it| if let Item::Fn(g) = it { if g.sig.ident == name { Some(g) } else { None } } else { None }));
         if let Some(g) = found {
             translate_free_helpers(files, reg, out, &g.block, &name, depth + 1)?;
-            let mut tr = FnTr { reg, self_ty: None, ret: Ty::Unit, counter: 0, fn_prefix: name.clone(), local_fns: HashMap::new(), extra_defs: vec![] };
+            let mut tr = FnTr { reg, self_ty: None, ret: Ty::Unit, counter: 0, fn_prefix: name.clone(), local_fns: HashMap::new(), extra_defs: vec![], muts: vec![], tparams: HashMap::new() };
             let gblock = crate::statics::inline_consts_block(files, tr.reg, &g.block);
             let (text, fsig) = tr.function(&g.sig, &gblock, &name).map_err(|e| format!("helper fn {}: {}", name, e))?;
             for d in tr.extra_defs {
@@ -242,6 +253,9 @@ fn translate_unit(repo: &Path, u: &Unit, reg: &mut Registry) -> Res<String> {
         files.push(syn::parse_file(&src).map_err(|e| format!("{}: parse error {}", f, e))?);
         file_names.push(f.to_string());
     }
+    // builder L: methods called on `self` are translated on demand from the unit's files
+    let files = std::rc::Rc::new(files);
+    reg.files = Some(files.clone());
     let mut out = String::new();
     writeln!(out, "-- GENERATED by /verif/tools/translate from /repo/{} — do not edit.", u.file).unwrap();
     writeln!(out, "import LoraVerif.Rt").unwrap();
@@ -320,7 +334,7 @@ fn translate_unit(repo: &Path, u: &Unit, reg: &mut Registry) -> Res<String> {
                     Item::Struct(s) => s,
                     _ => unreachable!(),
                 };
-                let tr = FnTr { reg, self_ty: Some(name.to_string()), ret: Ty::Unit, counter: 0, fn_prefix: String::new(), local_fns: HashMap::new(), extra_defs: vec![] };
+                let tr = FnTr { reg, self_ty: Some(name.to_string()), ret: Ty::Unit, counter: 0, fn_prefix: String::new(), local_fns: HashMap::new(), extra_defs: vec![], muts: vec![], tparams: HashMap::new() };
                 let mut fields = vec![];
                 for f in &s.fields {
                     let fname = f.ident.as_ref().ok_or("tuple struct")?.to_string();
@@ -339,7 +353,7 @@ fn translate_unit(repo: &Path, u: &Unit, reg: &mut Registry) -> Res<String> {
                     None => (None, *path),
                 };
                 let mut found: Option<(&Type, &Expr)> = None;
-                for f in &files {
+                for f in files.iter() {
                     if let Some(tn) = tyname {
                         for it in &f.items {
                             if let Item::Impl(im) = it {
@@ -363,7 +377,7 @@ fn translate_unit(repo: &Path, u: &Unit, reg: &mut Registry) -> Res<String> {
                     }
                 }
                 let (ty, expr) = found.ok_or(format!("const {} not found", path))?;
-                let mut tr = FnTr { reg, self_ty: tyname.map(|s| s.to_string()), ret: Ty::Unit, counter: 0, fn_prefix: String::new(), local_fns: HashMap::new(), extra_defs: vec![] };
+                let mut tr = FnTr { reg, self_ty: tyname.map(|s| s.to_string()), ret: Ty::Unit, counter: 0, fn_prefix: String::new(), local_fns: HashMap::new(), extra_defs: vec![], muts: vec![], tparams: HashMap::new() };
                 let t = tr.ty(ty)?;
                 let mut st = vec![];
                 let mut env = HashMap::new();
@@ -391,6 +405,15 @@ fn translate_unit(repo: &Path, u: &Unit, reg: &mut Registry) -> Res<String> {
                     },
                 };
                 let (sig, body) = files.iter().find_map(|f| find_fn(f, tyname, trait_name, fname)).ok_or(format!("fn {} not found", path))?;
+                if let Some(t) = tyname {
+                    // builder L: already emitted as a helper of an earlier item
+                    let k = format!("{}::{}", t, fname);
+                    let d = reg.dyn_fns.borrow().get(&k).cloned();
+                    if let Some(d) = d {
+                        reg.fns.insert(k, d);
+                        continue;
+                    }
+                }
                 let lean_name = match tyname {
                     Some(t) => format!("{}.{}", t, fname),
                     None => fname.to_string(),
@@ -401,7 +424,7 @@ fn translate_unit(repo: &Path, u: &Unit, reg: &mut Registry) -> Res<String> {
                 // module-level constants the body mentions but the unit does not select: by value
                 let body_inl = crate::statics::inline_consts_block(&files, reg, body);
                 let body = &body_inl;
-                let mut tr = FnTr { reg, self_ty: tyname.map(|s| s.to_string()), ret: Ty::Unit, counter: 0, fn_prefix: lean_name.clone(), local_fns: HashMap::new(), extra_defs: vec![] };
+                let mut tr = FnTr { reg, self_ty: tyname.map(|s| s.to_string()), ret: Ty::Unit, counter: 0, fn_prefix: lean_name.clone(), local_fns: HashMap::new(), extra_defs: vec![], muts: vec![], tparams: HashMap::new() };
                 let (text, fsig) = tr.function(sig, body, &lean_name).map_err(|e| format!("fn {}: {}", lean_name, e))?;
                 for d in tr.extra_defs {
                     out.push_str(&d);
@@ -419,7 +442,7 @@ fn translate_unit(repo: &Path, u: &Unit, reg: &mut Registry) -> Res<String> {
                 let (sig, body) = files.iter().find_map(|f| find_from_impl(f, from, to)).ok_or(format!("From<{}> for {} not found", from, to))?;
                 let lean_name = format!("{}.into_{}", from, to);
                 reg.aliases.insert("Self".into(), match int_ty(to) { Some(i) => Ty::Int(i), None => Ty::Named(to.to_string()) });
-                let mut tr = FnTr { reg, self_ty: None, ret: Ty::Unit, counter: 0, fn_prefix: lean_name.clone(), local_fns: HashMap::new(), extra_defs: vec![] };
+                let mut tr = FnTr { reg, self_ty: None, ret: Ty::Unit, counter: 0, fn_prefix: lean_name.clone(), local_fns: HashMap::new(), extra_defs: vec![], muts: vec![], tparams: HashMap::new() };
                 let r = tr.function(sig, body, &lean_name);
                 let (text, fsig) = r.map_err(|e| format!("fn {}: {}", lean_name, e))?;
                 out.push_str(&text);
@@ -439,7 +462,7 @@ fn translate_unit(repo: &Path, u: &Unit, reg: &mut Registry) -> Res<String> {
                     Item::Struct(s) => s,
                     _ => unreachable!(),
                 };
-                let tr = FnTr { reg, self_ty: Some(name.to_string()), ret: Ty::Unit, counter: 0, fn_prefix: String::new(), local_fns: HashMap::new(), extra_defs: vec![] };
+                let tr = FnTr { reg, self_ty: Some(name.to_string()), ret: Ty::Unit, counter: 0, fn_prefix: String::new(), local_fns: HashMap::new(), extra_defs: vec![], muts: vec![], tparams: HashMap::new() };
                 let mut fields = vec![];
                 for f in &s.fields {
                     let fname = f.ident.as_ref().ok_or("tuple struct")?.to_string();
@@ -458,13 +481,72 @@ fn translate_unit(repo: &Path, u: &Unit, reg: &mut Registry) -> Res<String> {
                 writeln!(out, "  deriving DecidableEq, Repr\n").unwrap();
                 reg.structs.insert(name.to_string(), fields);
             }
+            Sel::EnumData(name) => {
+                let it = find_in(&|it| matches!(it, Item::Enum(e) if e.ident == name)).ok_or(format!("enum {} not found", name))?;
+                let e = match it {
+                    Item::Enum(e) => e,
+                    _ => unreachable!(),
+                };
+                let tr = FnTr { reg, self_ty: Some(name.to_string()), ret: Ty::Unit, counter: 0, fn_prefix: String::new(), local_fns: HashMap::new(), extra_defs: vec![], muts: vec![], tparams: HashMap::new() };
+                let mut units = vec![];
+                let mut datas = vec![];
+                let mut lines = vec![];
+                for v in &e.variants {
+                    if tr::cfg_disabled(&v.attrs) {
+                        continue;
+                    }
+                    let vn = v.ident.to_string();
+                    match &v.fields {
+                        Fields::Unit => {
+                            lines.push(format!("  | {}", lean_ident(&vn)));
+                            units.push((vn, None));
+                        }
+                        Fields::Unnamed(fs) => {
+                            let tys = fs.unnamed.iter().map(|f| tr.ty(&f.ty)).collect::<Res<Vec<_>>>().map_err(|e| format!("enum {} variant {}: {}", name, vn, e))?;
+                            lines.push(format!("  | {} {}", lean_ident(&vn), tys.iter().enumerate().map(|(k, t)| format!("(a{} : {})", k, t.lean())).collect::<Vec<_>>().join(" ")));
+                            datas.push((vn, tys));
+                        }
+                        Fields::Named(_) => return Err(format!("enum {} variant {} has named fields", name, vn)),
+                    }
+                }
+                writeln!(out, "inductive {} where", name).unwrap();
+                for l in &lines {
+                    writeln!(out, "{}", l).unwrap();
+                }
+                writeln!(out, "  deriving DecidableEq, Repr\n").unwrap();
+                reg.enums.insert(name.to_string(), units);
+                reg.enum_data.insert(name.to_string(), datas);
+            }
+            Sel::AbstractStmt(needle, lean, reads, writes) => {
+                reg.abstract_stmts.push((needle.to_string(), lean.to_string(), reads.iter().map(|s| s.to_string()).collect(), writes.iter().map(|s| s.to_string()).collect()));
+            }
+            Sel::ExternStructRaw(name, fields) => {
+                let tr = FnTr { reg, self_ty: None, ret: Ty::Unit, counter: 0, fn_prefix: String::new(), local_fns: HashMap::new(), extra_defs: vec![], muts: vec![], tparams: HashMap::new() };
+                let mut fs = vec![];
+                for (n, t) in fields.iter() {
+                    let ty: Type = syn::parse_str(t).map_err(|e| format!("ExternStructRaw {}: {}", name, e))?;
+                    fs.push((n.to_string(), tr.ty(&ty)?));
+                }
+                reg.structs.insert(name.to_string(), fs);
+            }
+            Sel::ExternFn(key, lean, params, ret) => {
+                let tr = FnTr { reg, self_ty: None, ret: Ty::Unit, counter: 0, fn_prefix: String::new(), local_fns: HashMap::new(), extra_defs: vec![], muts: vec![], tparams: HashMap::new() };
+                let mut ps = vec![];
+                for (n, t) in params.iter() {
+                    let ty: Type = syn::parse_str(t).map_err(|e| format!("ExternFn {}: {}", key, e))?;
+                    ps.push((n.to_string(), tr.ty(&ty)?));
+                }
+                let rty: Type = syn::parse_str(ret).map_err(|e| format!("ExternFn {}: {}", key, e))?;
+                let r = tr.ty(&rty)?;
+                reg.fns.insert(key.to_string(), FnSig { lean: lean.to_string(), params: ps, ret: r, fallible: false, muts: vec![] });
+            }
             Sel::ConstAs(file_substr, rust_name, lean_name) => {
                 let idx = file_names.iter().position(|n| n.contains(file_substr)).ok_or(format!("no file matching {}", file_substr))?;
                 let c = match find_item(&files[idx].items, &|it| matches!(it, Item::Const(c) if c.ident == rust_name)) {
                     Some(Item::Const(c)) => c,
                     _ => return Err(format!("const {} not found in {}", rust_name, file_names[idx])),
                 };
-                let mut tr = FnTr { reg, self_ty: None, ret: Ty::Unit, counter: 0, fn_prefix: String::new(), local_fns: HashMap::new(), extra_defs: vec![] };
+                let mut tr = FnTr { reg, self_ty: None, ret: Ty::Unit, counter: 0, fn_prefix: String::new(), local_fns: HashMap::new(), extra_defs: vec![], muts: vec![], tparams: HashMap::new() };
                 let t = tr.ty(&c.ty)?;
                 let mut st = vec![];
                 let mut env = HashMap::new();
@@ -494,7 +576,7 @@ fn translate_unit(repo: &Path, u: &Unit, reg: &mut Registry) -> Res<String> {
             Sel::ExternStruct(name) => {
                 let it = find_in(&|it| matches!(it, Item::Struct(s) if s.ident == name)).ok_or(format!("struct {} not found", name))?;
                 if let Item::Struct(sct) = it {
-                    let tr = FnTr { reg, self_ty: Some(name.to_string()), ret: Ty::Unit, counter: 0, fn_prefix: String::new(), local_fns: HashMap::new(), extra_defs: vec![] };
+                    let tr = FnTr { reg, self_ty: Some(name.to_string()), ret: Ty::Unit, counter: 0, fn_prefix: String::new(), local_fns: HashMap::new(), extra_defs: vec![], muts: vec![], tparams: HashMap::new() };
                     let mut fields = vec![];
                     for f in &sct.fields {
                         fields.push((f.ident.as_ref().ok_or("tuple struct")?.to_string(), tr.ty(&f.ty)?));
